@@ -9,6 +9,7 @@ CONSTANTS
   Faults <- NoFaults
   OnlyFaulty = FALSE
   Grow = 0
+  Shadowing = FALSE
   ForceAfter = 0
 CONSTRAINT SizeBound
 INVARIANTS Balanced UsesBound EmitInv
